@@ -13,6 +13,26 @@ def err_class(e):
     return 'other:' + type(e).__name__
 
 
+class MemView(object):
+    """dict-like read access to CompiledSimulation's memory inspector (which cannot be enumerated when
+    the address space is large)"""
+
+    def __init__(self, mm, addrwidth):
+        self.mm = mm
+        self.addrwidth = addrwidth
+
+    def get(self, a, default=0):
+        return int(self.mm[a])
+
+    def __iter__(self):
+        if self.addrwidth <= 12:
+            return iter(range(1 << self.addrwidth))
+        return iter(())
+
+    def items(self):
+        return [(a, self.get(a)) for a in self]
+
+
 def run_real(simcls, block, steps, regmap=None, memmap=None, default=0, track='all', **kw):
     """Returns {'trace': {wire name: [values]}, 'mem': {memid: {addr: val}}, 'err': None|(cycle, class)}.
     `track='all'` traces every wire the simulator can trace."""
@@ -46,7 +66,10 @@ def run_real(simcls, block, steps, regmap=None, memmap=None, default=0, track='a
     for mid, m in mems.items():
         try:
             mm = sim.inspect_mem(m)
-            mem[mid] = {int(a): int(v) for a, v in dict(mm).items()}
+            if isinstance(mm, dict):
+                mem[mid] = {int(a): int(v) for a, v in mm.items()}
+            else:
+                mem[mid] = MemView(mm, m.addrwidth)      # a view into the C hash map: query, do not enumerate
         except Exception as e:  # noqa
             mem[mid] = {'err': err_class(e)}
     return {'trace': trace, 'mem': mem, 'err': err, 'sim': sim}
